@@ -4,7 +4,7 @@ from . import tygen as TG
 from . import gencrate as GC
 from . import datacases as D
 
-THEOREMS = []
+THEOREMS = ["C04_packed_sound", "C04_image_size", "C04_transparent_write", "C04_transparent_read", "C04_version_gate", "C04_packed_sound_refuted_mixed_enum", "C04_hypotheses_satisfiable"]
 HEADER = D.HEADER.replace("HarnessTy.", "HarnessTy Packed HarnessPk.")
 
 
@@ -34,11 +34,11 @@ def run(chk, tier, seed):
             meta["pk%d" % n] = {"kind": "packed", "root": ri, "version": v, "n": n, "val": 0}
         for vi in range(len(r["vals"])):
             n += 1
-            lines.append("by%d ty_rt %d bare 0 %d" % (n, ri, vi))
-            meta["by%d" % n] = {"kind": "bytes", "root": ri, "version": 0, "val": vi, "n": n, "container": "bare"}
+            lines.append("by%d ty_rt %d bare %d %d" % (n, ri, r.get("curver", 0), vi))
+            meta["by%d" % n] = {"kind": "bytes", "root": ri, "version": r.get("curver", 0), "val": vi, "n": n, "container": "bare"}
             n += 1
-            lines.append("dt%d ty_det %d bare 0 %d" % (n, ri, vi))
-            meta["dt%d" % n] = {"kind": "det", "root": ri, "version": 0, "val": vi, "n": n, "container": "bare"}
+            lines.append("dt%d ty_det %d bare %d %d" % (n, ri, r.get("curver", 0), vi))
+            meta["dt%d" % n] = {"kind": "det", "root": ri, "version": r.get("curver", 0), "val": vi, "n": n, "container": "bare"}
     obs = C.run_harness(binary, lines, timeout=900)
     terms = []
     npacked = 0
@@ -57,9 +57,23 @@ def run(chk, tier, seed):
             p = o.split(" ", 3)
             if p[0] == "OK":
                 cx = TG.coq_val(r["vals"][m["val"]])
-                terms.append((m["n"], "agree_impl 0 %s %s %s" % (ct, cx, D.hexlit(p[1]))))
+                terms.append((m["n"], "agree_impl %d %s %s %s" % (m["version"], ct, cx, D.hexlit(p[1]))))
             else:
                 terms.append((m["n"], "false"))
+    # hypotheses of the theorems, evaluated on every generated definition with its real layout
+    hyp_terms = []
+    hyp_meta = {}
+    for ri, r in roots:
+        n += 1
+        ct = TG.coq_ty(r["ty"])
+        hyp_terms.append((n, "wf_ty %s && empty_struct_zst %s && wf_layout %s && regions_ok 0 %s && regions_ok 2 %s" % (ct, ct, ct, ct, ct)))
+        hyp_meta[n] = ri
+    hbad, herrs = C.coq_eval_bad("C04hyp", HEADER.replace("HarnessPk.", "HarnessPk PackedProofs."), hyp_terms, shard=150)
+    for ids, out in herrs:
+        chk.broken.append("hypothesis shard failed to evaluate: " + out[-300:])
+    for i in hbad:
+        chk.broken.append("a generated definition with its REAL layout violates a hypothesis of the C04 theorems (wf_ty / empty_struct_zst / wf_layout / regions_ok): %s" % TG.rust_ty(U["roots"][hyp_meta[i]]["ty"]))
+    chk.cov["hypotheses_checked_on_definitions"] = len(hyp_terms)
     bad, errs = C.coq_eval_bad("C04", HEADER, terms, shard=120)
     for ids, out in errs:
         chk.broken.append("correspondence shard failed to evaluate (cases %s..): %s" % (ids[:3], out[-400:]))
@@ -90,7 +104,7 @@ def run(chk, tier, seed):
                     chk.violations.append((what, {"input": D.describe(U, m), "harness_line": [l for l in lines if l.startswith(cid + " ")][0], "observed": o[:400]}))
         elif m["kind"] == "bytes" and o.startswith("OK "):
             p = o.split(" ", 3)
-            spec_terms.append((m["n"], "spec_bytes 0 %s %s %s" % (TG.coq_ty(t), TG.coq_val(r["vals"][m["val"]]), D.hexlit(p[1]))))
+            spec_terms.append((m["n"], "spec_bytes %d %s %s %s" % (m["version"], TG.coq_ty(t), TG.coq_val(r["vals"][m["val"]]), D.hexlit(p[1]))))
             chk.distinct.add((D.shape_key(t), "bytes"))
         elif m["kind"] == "packed":
             chk.distinct.add((D.shape_key(t), m["version"], o))
